@@ -160,6 +160,32 @@ DEEP = [
             ["s", "ε", "ε", "v", "ε"]]}, ["a" * 5, "a" * 9]),
 ]
 
+def chain_srcs(rng, count):
+    """(i) balanced computations that are the concatenation of THREE or FOUR push...pop segments at the same stack
+    height through different states with different stack symbols (segment: epsilon push, pop on a letter - the word
+    abc / abca has one letter per segment), the states named by a random permutation (the order of the state set
+    follows the names); (ii) PDAs that push their 'bottom marker' again higher up the stack because their initial
+    state lies on a cycle: they accept with symbols left on the stack although they look like the normal form"""
+    out = []
+    for i in range(count):
+        k = 3 + (i % 3 == 2)
+        names = ["p%d" % j for j in range(2 * k + 1)] if i % 2 else list("abcdefghi"[: 2 * k + 1].upper())
+        rng.shuffle(names)
+        T = []
+        for j in range(k):
+            q, m, q1 = names[2 * j], names[2 * j + 1], names[2 * j + 2]
+            T.append([q, "ε", "ε", m, "uvwx"[j]])
+            T.append([m, "abca"[j], "uvwx"[j], q1, "ε"])
+        if i % 4 == 3:
+            T.append([names[2], "b", "ε", names[2], "ε"])          # a stack-free loop between two segments
+        out.append({"kind": "pda_trans", "Q": sorted(names), "S": "abc", "G": "uvwx"[:k], "q0": names[0],
+                    "F": [names[2 * k]], "T": T, "n": 4 if k == 4 else 3})
+    for mk, sym, again in (("$", "A", "A"), ("#", "X", "ε"), ("$", "$x", "x")):
+        out.append({"kind": "pda_trans", "Q": ["q0", "q1", "q2"], "S": "ab", "G": sorted(set(mk + sym)), "q0": "q0", "F": ["q2"],
+                    "T": [["q0", "ε", "ε", "q1", mk], ["q1", "a", "ε", "q0", again], ["q1", "b", mk, "q2", "ε"]]})
+    return out
+
+
 SPECIAL = [
     # a^n b^n (Sipser)
     {"kind": "pda_trans", "Q": ["q1", "q2", "q3", "q4"], "S": "ab", "G": "0$", "q0": "q1", "F": ["q1", "q4"],
